@@ -2337,10 +2337,19 @@ impl Timestamp {
     ) -> Result<Timestamp, Error> {
         let (second, nanosecond) =
             rangeint::uncomposite!(its, c => (c.second, c.nanosecond));
-        Ok(Timestamp {
-            second: second.try_to_rint("unix-seconds")?,
-            nanosecond: nanosecond.to_rint(),
-        })
+        let second: UnixSeconds = second.try_to_rint("unix-seconds")?;
+        let nanosecond: FractionalNanosecond = nanosecond.to_rint();
+        // Both components can be in bounds on their own while their
+        // combination is less than the minimum timestamp.
+        if second == UnixSeconds::MIN_SELF && nanosecond < C(0) {
+            return Err(Error::range(
+                "seconds and nanoseconds",
+                nanosecond,
+                0,
+                1_000_000_000,
+            ));
+        }
+        Ok(Timestamp { second, nanosecond })
     }
 
     #[inline]
